@@ -604,9 +604,42 @@ def r5_globals(report, repo):
   report.expect_instances(rule, n, 3, 'shared-state write sites')
 
 
+def r6_plug_types(report, repo):
+  rule = 'C11-R6'
+  TD = 'openhtf/core/test_descriptor.py'
+  report.rule(rule, 'T-OWN: TestDescriptor.plug_types hands out a set built '
+              'by that very call (PlugManager keeps and grows the set it is '
+              'given), and nothing of it is stored on the descriptor')
+  f = repo.func(TD, 'TestDescriptor.plug_types')
+  g = lib.cfg(f)
+  rets = [n for n in g.nodes if isinstance(n.ast, ast.Return)]
+  report.expect_instances(rule, len(rets), 1, 'returns of plug_types')
+  for rn in rets:
+    vals = lib.value_exprs(g, rn, rn.ast.value)
+    fresh = all(isinstance(v, (ast.Set, ast.SetComp)) or (
+        isinstance(v, ast.Call) and call_name(v) in ('set', 'frozenset'))
+                for v in vals)
+    report.check(fresh, rule, f.qualname, 'fresh-set', rn.ast,
+                 'plug_types returns a set created by the call',
+                 'plug_types can return an object that outlives the call (%s): '
+                 'PlugManager.update_plug adds to it, so one run changes the '
+                 'plug set of the declared test' % sorted(set(
+                     norm(v)[:40] for v in vals)))
+  ws = [n for n in g.nodes if n.kind == 'stmt' and n.ast is not None and any(
+      (dotted(t) or '').startswith('self.')
+      for t in core.assigned_targets(n.ast))]
+  report.check(not ws, rule, f.qualname, 'no-descriptor-write', f.node,
+               'plug_types does not write to the descriptor')
+
+
 def run(report, repo):
   report.guard(r1_fresh, report, repo)
   report.guard(r2_attr_copy, report, repo)
   report.guard(r3_per_run_state, report, repo)
   report.guard(r4_no_descriptor_writes, report, repo)
   report.guard(r5_globals, report, repo)
+  report.guard(r6_plug_types, report, repo)
+  # the declared plug class gets its logger attribute back on every exit of the
+  # constructor call (shared C08-R2)
+  from sa.rules import c08  # pylint: disable=g-import-not-at-top
+  report.guard(c08.r2_construct_once, report, repo, rule='C11-R7')
